@@ -11,7 +11,7 @@ from feems.components_model.component_base import BasicComponent
 from feems.types_for_feems import TypeComponent, TypePower, Power_kW, Speed_rpm, SwbId
 
 
-def gen_eff_curve(rng, lo=0.5, hi=1.0, allow_clamp=False):
+def gen_eff_curve(rng, lo=0.5, hi=1.0, allow_clamp=False, wild=False):
     """A curve spec: a single value [[e]] or 2-6 points [[load, eff], …] (loads in (0,1],
     ascending), efficiencies in [lo, hi]. Not yet checked against the constructor."""
     if rng.random() < 0.3:
@@ -25,6 +25,9 @@ def gen_eff_curve(rng, lo=0.5, hi=1.0, allow_clamp=False):
         loads[-1] = 1.0
         loads = np.unique(loads)
         n = len(loads)
+    if wild:      # any efficiencies in [lo, hi] at the chosen loads (steep curves included)
+        effs = np.sort(rng.uniform(lo, hi, n)) if rng.random() < 0.7 else rng.uniform(lo, hi, n)
+        return [[float(l), float(np.round(e, 3))] for l, e in zip(loads, effs)]
     base = rng.uniform(lo + 0.05, hi)
     effs = np.clip(base - rng.uniform(0, 0.25) * (1 - loads) ** 2 + rng.normal(0, 0.005, n), lo, hi)
     return [[float(l), float(np.round(e, 4))] for l, e in zip(loads, effs)]
